@@ -265,8 +265,16 @@ def run_cases(model, cases, impl_env=None, spec_needs_impl=False, timeout=1200, 
                  "model_lines_ok": len(mod) == nlines, "spec_lines_ok": len(spec) == nlines}
 
 
+# ids of the open known findings of the property being checked (set by the runner): a spec line "spec KNOWN <id> ..."
+# attributes one observation to such a finding; for an id that is not open it is a rejection like any other
+OPEN_IDS = set()
+
+
 def spec_accepts(spec_line, impl_line):
     """spec line: '-' = no opinion; tokens '*' are wildcards; otherwise token-wise equality"""
+    if spec_line.startswith("spec KNOWN"):
+        w = spec_line.split()
+        return len(w) > 2 and w[2] in OPEN_IDS
     if spec_line.strip() == "-":
         return True
     if spec_line.startswith("spec ok") or spec_line.startswith("spec CORR"):
